@@ -247,6 +247,78 @@ def case_bfs(col, p):
     col.distinct('nontrivial', ('bfs', G, gkind, d0, depth, lo, tuple(steps)))
 
 
+def case_pergrid(col, p):
+    """every pulse / admixture constructor / removal with a DIFFERENT grid on every axis (the functions take one grid per population):
+    value against the exact reference built with the same per-axis grids, on every unit density"""
+    from dadi import PhiManip as PM
+    d, G = p['d'], p['G']
+    # a different grid on every axis, also for 3-point grids (where the uniform and the default grid coincide)
+    rot = p.get('rot', 0)
+    grids = [np.array([0.0] + [((j + 1.0) / (G - 1)) ** (1.0 + 0.35 * ((k + rot) % 6) - 0.5 * (rot % 2)) for j in range(G - 2)] + [1.0]) for k in range(6)]
+    fgs = [RD.fgrid(g) for g in grids]
+    shape = (G,) * d
+    N = G ** d
+    ops = []
+    if d < 5 and d >= 2:
+        for pr in props_lattice(d - 1, 2):
+            ops.append(('admix_new', pr))
+    if d == 1:
+        ops.append(('split', 0))
+    for dest in range(d):
+        if d >= 2:
+            kk = 1 if d == 2 else d - 1
+            for pr in props_lattice(kk, 2):
+                ops.append(('pulse', dest, pr))
+            ops.append(('remove', dest))
+    n = 0
+    lo, hi = p['units']
+    for j in range(lo, hi):
+        e = np.zeros(N)
+        e[j] = 1.0
+        phi0 = e.reshape(shape)
+        r0 = RD.fr_array(phi0)
+        for op in ops:
+            info = dict(p, op=op, unit=j)
+            try:
+                if op[0] == 'split':
+                    out = PM.phi_1D_to_2D(grids[0], phi0.copy())
+                    ref = RD.split_1d(r0, fgs[0])
+                    name = 'phi_1D_to_2D'
+                elif op[0] == 'admix_new':
+                    out = new_func(d)(phi0.copy(), *op[1], *grids[:d], grids[d])
+                    prf = [Fraction(float(v)) for v in op[1]]
+                    prf.append(1 - sum(prf))
+                    ref = RD.admix_new(r0, prf, fgs[:d], fgs[d])
+                    name = new_func(d).__name__
+                elif op[0] == 'pulse':
+                    fn, srcs = pulse_func(d, op[1])
+                    out = fn(phi0.copy(), *op[2], *grids[:d])
+                    ref = RD.pulse(r0, op[1], {k: Fraction(float(f)) for k, f in zip(srcs, op[2])}, fgs[:d])
+                    name = fn.__name__
+                else:
+                    out = PM.remove_pop(phi0.copy(), grids[op[1]], op[1] + 1)
+                    ref = RD.remove(r0, fgs[op[1]], op[1])
+                    name = 'remove_pop'
+            except Exception as ex:
+                col.violation('C06:pergrid:raises', info, '%s: %s' % (type(ex).__name__, ex))
+                continue
+            col.tick(transitions=1)
+            n += 1
+            exf = RD.to_float(ref)
+            out = np.array(out)
+            if out.shape != exf.shape:
+                col.violation('C06:%s:shape' % name, info, {'got': out.shape, 'exp': exf.shape})
+                continue
+            sc = max(1.0, float(np.abs(exf).max()))
+            err = float(np.abs(out - exf).max())
+            if not err <= 1e-12 * sc:
+                col.violation('C06:%s:value' % name, dict(info, grids='distinct per axis'), {'maxerr': err, 'scale': sc})
+            else:
+                col.observe('value_pergrid', err / (1e-12 * sc))
+    col.tick(states=n, traces=n)
+    col.distinct('nontrivial', ('pergrid', d, G, lo, p.get('rot', 0)))
+
+
 def case_accept_reject(col, p):
     """every function x every simplex vector (accepted) x every vector summing above 1 (rejected)"""
     import dadi
@@ -333,7 +405,7 @@ def case_layout(col, p):
     col.distinct('nontrivial', ('layout', d))
 
 
-CASES = {'bfs': case_bfs, 'accept_reject': case_accept_reject, 'layout': case_layout}
+CASES = {'bfs': case_bfs, 'pergrid': case_pergrid, 'accept_reject': case_accept_reject, 'layout': case_layout}
 
 
 def _dispatch(col, case):
@@ -365,6 +437,15 @@ def run(ctx):
                     'thorough: depth 3 from 1-D, depth 2 from 3-D, step-1/4 everywhere')
     for d in (2, 3, 4, 5):
         cases.append({'kind': 'accept_reject', 'd': d})
+        if d <= 5:
+            Gp = {1: 5, 2: 4, 3: 3, 4: 3, 5: 3}[d]
+            Np = Gp ** d
+            chunk = Np if d <= 3 else 27
+            for rot in ((0,) if ctx.quick else (0, 1, 2)):
+                for lo in range(0, Np, chunk):
+                    if ctx.quick and d == 5 and (lo // chunk) % 3:
+                        continue
+                    cases.append({'kind': 'pergrid', 'd': d, 'G': Gp, 'seed': ctx.seed, 'rot': rot, 'units': (lo, min(Np, lo + chunk))})
         cases.append({'kind': 'layout', 'd': d, 'seed': ctx.seed})
     from mc.evidence import Collector
     a, b = Collector(), Collector()
